@@ -48,6 +48,8 @@ enum Pat {
     ElementStartHook,
     /// a processing element releases N tasks in event_end of a message event
     ElementEndHook,
+    /// ... in event_end of a message event whose message the element consumed (handler skipped)
+    ElementConsumesThenEndHook,
     /// ... in event_end of a timer wake-up event
     ElementEndHookOnTimer,
     /// ... in event_end of the start stage (tasks spawned by that stage)
@@ -77,7 +79,7 @@ enum Pat {
     /// timers for 0.5 s and 2 s are armed first, then N tasks sleep to 1 s (a deadline between the two)
     TimerArmedBetweenTwoOthers,
 }
-const PATS: [Pat; 27] = [
+const PATS: [Pat; 28] = [
     Pat::Sleepers,
     Pat::Chain,
     Pat::NotifyAll,
@@ -93,6 +95,7 @@ const PATS: [Pat; 27] = [
     Pat::ElementConsumes,
     Pat::ElementStartHook,
     Pat::ElementEndHook,
+    Pat::ElementConsumesThenEndHook,
     Pat::ElementEndHookOnTimer,
     Pat::ElementEndHookOnStart,
     Pat::NotifyThenShutdown,
@@ -132,7 +135,7 @@ impl ProcessingElement for Waker {
         }
     }
     fn event_end(&mut self) {
-        if matches!(self.pat, Pat::ElementEndHook | Pat::ElementEndHookOnTimer) && now() == 1000 {
+        if matches!(self.pat, Pat::ElementEndHook | Pat::ElementConsumesThenEndHook | Pat::ElementEndHookOnTimer) && now() == 1000 {
             self.notify.notify_waiters();
         }
         if self.pat == Pat::ElementEndHookOnStart && now() == 0 {
@@ -142,6 +145,9 @@ impl ProcessingElement for Waker {
     fn incoming(&mut self, m: Message) -> Option<Message> {
         if self.pat == Pat::ElementConsumes && m.header().kind == 8 {
             self.notify.notify_waiters();
+            return None;
+        }
+        if self.pat == Pat::ElementConsumesThenEndHook && m.header().kind == 8 {
             return None;
         }
         Some(m)
@@ -170,7 +176,7 @@ impl Mo {
 impl Module for Mo {
     fn reset(&mut self) {}
     fn stack(&self, mut s: ProcessingStack) -> ProcessingStack {
-        if matches!(self.pat, Pat::ElementConsumes | Pat::ElementStartHook | Pat::ElementEndHook | Pat::ElementEndHookOnTimer | Pat::ElementEndHookOnStart) {
+        if matches!(self.pat, Pat::ElementConsumes | Pat::ElementStartHook | Pat::ElementEndHook | Pat::ElementConsumesThenEndHook | Pat::ElementEndHookOnTimer | Pat::ElementEndHookOnStart) {
             s.append(Waker { pat: self.pat, notify: self.notify.clone() });
         }
         s
@@ -348,7 +354,7 @@ impl Module for Mo {
                     });
                 }
             }
-            Pat::ElementConsumes | Pat::ElementStartHook | Pat::ElementEndHook => {
+            Pat::ElementConsumes | Pat::ElementStartHook | Pat::ElementEndHook | Pat::ElementConsumesThenEndHook => {
                 for i in 0..n {
                     let l = self.log.clone();
                     let nf = self.notify.clone();
@@ -701,7 +707,7 @@ impl Property for C06 {
                         Pat::Sleepers => ctx.hit("timer_trigger"),
                         Pat::SleepBehindCancelledTimer | Pat::SleepResetToLater | Pat::TwinTimersFirstDropped | Pat::IntervalMovedToAnotherTask | Pat::TimerArmedBetweenTwoOthers => ctx.hit("timer_behind_cancelled_timer"),
                         Pat::NotifyAll => ctx.hit("message_trigger"),
-                        Pat::ElementConsumes | Pat::ElementStartHook | Pat::ElementEndHook | Pat::ElementEndHookOnTimer | Pat::ElementEndHookOnStart => ctx.hit("processing_element_trigger"),
+                        Pat::ElementConsumes | Pat::ElementStartHook | Pat::ElementEndHook | Pat::ElementConsumesThenEndHook | Pat::ElementEndHookOnTimer | Pat::ElementEndHookOnStart => ctx.hit("processing_element_trigger"),
                         _ => {}
                     }
                     match run_case(&c) {
